@@ -74,14 +74,15 @@ theorem C13_precond (F : Flags) (o : Obs) (x : Act) (ev : Ev) (y : Act) (eff : E
 set_option maxHeartbeats 1000000 in
 /-- **C13 (prompt).** When the task has a prompt and `--yes` is not given, `guardsPassed`
 is not accepted: the activation leaves `guards` only by stopping (`finished`), and when it
-is the prompt that stops it the result is 205.  For all flags: with and without `--force`. -/
+is the prompt that stops it the result is 205 (a refusal or no terminal), or a plain error
+when the answer could not be read (`F.promptErr`).  For all flags: with and without `--force`. -/
 theorem C13_prompt (F : Flags) (o : Obs) (x : Act) (ev : Ev) (y : Act) (eff : Eff)
     (hph : x.phase = .guards) (hpr : x.def_.prompt = true) (hyes : F.yes = false)
     (h : stepLocal F o x ev = some (y, eff)) :
     ev ≠ .guardsPassed ∧ eff = .none ∧ y.phase = .finished ∧ y.started = x.started ∧
-    (ev = .promptFail → y.res = .typed 205) := by
+    (ev = .promptFail → y.res = promptRes F ∧ (F.promptErr = false → y.res = .typed 205)) := by
   steplocal_cases h
-  all_goals (simp_all [Act.stop])
+  all_goals (simp_all [Act.stop, promptRes])
 
 /-- in short: a failing late guard disables `guardsPassed` under every combination of flags -/
 theorem C13_guardsPassed_disabled (F : Flags) (o : Obs) (x : Act) (hph : x.phase = .guards)
